@@ -1,6 +1,20 @@
+/-
+C10 – persistent store/validate/fetch round-trips and stays inside its region.
+Property theorems only (helper lemmas: Ufw/Lemmas/Persist.lean).
+-/
 import Ufw.Model.Persist
+import Ufw.Model.Crc
+import Ufw.Lemmas.Persist
+import Ufw.Lemmas.EndianSpec
+
 namespace Ufw.Props.C10
-open Ufw Ufw.Model.Persist
+open Ufw Ufw.Model.Persist Ufw.Lemmas.Persist
+
+/-- the checksum the instance should hold for a medium: the configured function applied to the data
+    image on the medium, at the checksum width -/
+def expected (f : List Octet → Nat → Nat) (s : Store) (m : Medium) : Nat :=
+  if s.dataSize = 0 then trunc s s.init else trunc s (f (image s m) (trunc s s.init))
+
 /-- part accesses reaching beyond the data size - as natural numbers, so also pairs whose sum wraps in
     size_t - are refused without touching the medium -/
 theorem part_bounds (f : List Octet → Nat → Nat) (s : Store) (m : Medium) (src : List Octet) (offset n : Nat) :
@@ -13,4 +27,291 @@ theorem part_bounds (f : List Octet → Nat → Nat) (s : Store) (m : Medium) (s
   · intro h
     have : n > s.dataSize ∨ offset > s.dataSize - n := by omega
     simp [persistent_fetch_part, this]
+
+/-- however the library chunks its reads (any auxiliary buffer size, including none and 0), the
+    checksum it computes from the medium is the configured function applied to the whole data image -/
+theorem checksum_chunking (f : List Octet → Nat → Nat) (s : Store) (hst : Streamable f s) (m : Medium)
+    (hc : Clean m) (hf : Fits s m) :
+    ∃ m', persistent_calculate_checksum f s m = (.success, expected f s m, m') ∧ m'.cells = m.cells ∧ Clean m' := by
+  obtain ⟨m', e1, e2, e3⟩ := calcLoop_spec f s hst s.dataSize m s.dataSize s.dataAddr (trunc s s.init) hc hf (Nat.le_refl _)
+  exact ⟨m', by simpa [persistent_calculate_checksum, expected, image] using e1, e2, e3⟩
+
+/-- validation reports success exactly when the checksum field on the medium equals the checksum of the
+    data image on the medium, invalid data otherwise – on ANY medium content -/
+theorem validate_iff (f : List Octet → Nat → Nat) (s : Store) (hst : Streamable f s) (m : Medium)
+    (hc : Clean m) (hf : Fits s m) :
+    ∃ m', persistent_validate f s m =
+        ((if Ufw.Spec.Endian.loadU s.hostBig (field s m) = expected f s m then .success else .invalidData), m') ∧
+      m'.cells = m.cells ∧ Clean m' := by
+  have hr : s.sumAddr + s.width ≤ m.cells.length := by
+    simp only [Fits, Store.dataAddr] at hf; omega
+  simp only [persistent_validate, persistent_fetch_checksum, read_clean m hc s.sumAddr s.width hr, ne_eq,
+    not_true_eq_false, ↓reduceIte]
+  have hc1 : Clean { m with log := m.log ++ [(false, s.sumAddr, s.width)] } := hc
+  obtain ⟨m', e1, e2, e3⟩ := checksum_chunking f s hst { m with log := m.log ++ [(false, s.sumAddr, s.width)] } hc1 hf
+  rw [e1]
+  refine ⟨m', ?_, e2, e3⟩
+  rfl
+
+/-- any alteration of a stored octet is reported as invalid data whenever the configured checksum
+    distinguishes the two images (or the checksum field itself was altered) -/
+theorem alteration_detected (f : List Octet → Nat → Nat) (s : Store) (hst : Streamable f s) (m : Medium)
+    (hc : Clean m) (hf : Fits s m)
+    (hdiff : Ufw.Spec.Endian.loadU s.hostBig (field s m) ≠ expected f s m) :
+    (persistent_validate f s m).1 = .invalidData := by
+  obtain ⟨m', e, _⟩ := validate_iff f s hst m hc hf
+  rw [e]; simp [hdiff]
+
+private theorem load_sumImage (s : Store) (v : Nat) :
+    Ufw.Spec.Endian.loadU s.hostBig (sumImage s (trunc s v)) = trunc s v := by
+  simp only [sumImage, Ufw.Lemmas.EndianSpec.load_store]
+  exact Nat.mod_eq_of_lt (trunc_lt s v)
+
+private theorem sumImage_length (s : Store) (v : Nat) : (sumImage s v).length = s.width := by
+  simp [sumImage, Ufw.Lemmas.EndianSpec.store_length]
+
+/-- writing the right checksum makes the instance valid and leaves the data image alone -/
+private theorem store_checksum_valid (f : List Octet → Nat → Nat) (s : Store) (hst : Streamable f s) (m : Medium)
+    (hc : Clean m) (hf : Fits s m) :
+    ∃ m2, persistent_store_checksum s m (expected f s m) = (.success, m2) ∧ Clean m2 ∧ Fits s m2 ∧
+      image s m2 = image s m ∧ (persistent_validate f s m2).1 = .success := by
+  have hr : s.sumAddr + s.width ≤ m.cells.length := by
+    simp only [Fits, Store.dataAddr] at hf; omega
+  have hexp : expected f s m = trunc s (expected f s m) := by
+    simp only [expected]; split <;> rw [trunc_idem]
+  have hl := sumImage_length s (expected f s m)
+  simp only [persistent_store_checksum]
+  rw [write_clean m hc s.sumAddr _ (by rw [hl]; exact hr)]
+  simp only [hl, ne_eq, not_true_eq_false, ↓reduceIte]
+  refine ⟨_, rfl, hc, ?_, ?_, ?_⟩
+  · have := put_length m.cells (sumImage s (expected f s m)) s.sumAddr (by rw [hl]; exact hr)
+    rw [hl] at this
+    simp only [Fits, this]; exact hf
+  · simp only [image]
+    have := put_frame m.cells (sumImage s (expected f s m)) s.sumAddr s.dataAddr s.dataSize (by rw [hl]; exact hr)
+      (Or.inr (by rw [hl]; simp [Store.dataAddr]))
+    rw [hl] at this
+    exact this
+  · obtain ⟨m2, hm2⟩ : ∃ m2 : Medium, m2 = { m with cells := m.cells.take s.sumAddr ++ (sumImage s (expected f s m) ++ m.cells.drop (s.sumAddr + s.width)), log := m.log ++ [(true, s.sumAddr, s.width)] } := ⟨_, rfl⟩
+    rw [← hm2]
+    have hc2 : Clean m2 := by rw [hm2]; exact hc
+    have hf2 : Fits s m2 := by
+      simp only [Fits, hm2]
+      have := put_length m.cells (sumImage s (expected f s m)) s.sumAddr (by rw [hl]; exact hr)
+      rw [hl] at this
+      rw [this]; exact hf
+    obtain ⟨m', e, _⟩ := validate_iff f s hst m2 hc2 hf2
+    rw [e]
+    have himg : image s m2 = image s m := by
+      simp only [image, hm2]
+      have := put_frame m.cells (sumImage s (expected f s m)) s.sumAddr s.dataAddr s.dataSize (by rw [hl]; exact hr)
+        (Or.inr (by rw [hl]; simp [Store.dataAddr]))
+      rw [hl] at this
+      exact this
+    have hfield : field s m2 = sumImage s (expected f s m) := by
+      simp only [field, hm2]
+      have := put_get m.cells (sumImage s (expected f s m)) s.sumAddr (by rw [hl]; exact hr)
+      rw [hl] at this
+      exact this
+    have hexp2 : expected f s m2 = expected f s m := by simp only [expected, himg]
+    rw [hfield, hexp2, hexp, load_sumImage]
+    simp [← hexp]
+
+/-- after a successful store – full or partial, any data size, placement, checksum width, streamable
+    function and auxiliary buffer size – validation succeeds and the data image is the old image with
+    the stored octets laid over it (for a full store: exactly the stored image) -/
+theorem store_validate_fetch (f : List Octet → Nat → Nat) (s : Store) (hst : Streamable f s) (m : Medium)
+    (hc : Clean m) (hf : Fits s m) (src : List Octet) (offset : Nat) (hn : 0 < src.length)
+    (hin : offset + src.length ≤ s.dataSize) :
+    ∃ m2, persistent_store_part f s m src offset = (.success, m2) ∧ Clean m2 ∧ Fits s m2 ∧
+      image s m2 = (image s m).take offset ++ (src ++ (image s m).drop (offset + src.length)) ∧
+      (persistent_validate f s m2).1 = .success ∧
+      (persistent_fetch s m2).1 = .success ∧ (persistent_fetch s m2).2.1 = image s m2 := by
+  have hrange : ¬ (src.length > s.dataSize ∨ offset > s.dataSize - src.length) := by omega
+  have hw : s.dataAddr + offset + src.length ≤ m.cells.length := by simp only [Fits] at hf; omega
+  simp only [persistent_store_part, hrange, ↓reduceIte]
+  rw [write_clean m hc (s.dataAddr + offset) src hw]
+  simp only [ne_eq, not_true_eq_false, ↓reduceIte]
+  obtain ⟨m1, hm1⟩ : ∃ m1 : Medium, m1 = { m with cells := m.cells.take (s.dataAddr + offset) ++ (src ++ m.cells.drop (s.dataAddr + offset + src.length)), log := m.log ++ [(true, s.dataAddr + offset, src.length)] } := ⟨_, rfl⟩
+  rw [← hm1]
+  have hc1 : Clean m1 := by rw [hm1]; exact hc
+  have hlen1 : m1.cells.length = m.cells.length := by rw [hm1]; exact put_length m.cells src (s.dataAddr + offset) hw
+  have hf1 : Fits s m1 := by simp only [Fits, hlen1]; exact hf
+  -- the data image after the data write
+  have himg1 : image s m1 = (image s m).take offset ++ (src ++ (image s m).drop (offset + src.length)) := by
+    simp only [image, hm1]
+    apply List.ext_getElem?
+    intro i
+    simp only [List.getElem?_take, List.getElem?_drop, List.getElem?_append, List.length_take, List.length_drop,
+      List.length_append]
+    simp only [Fits] at hf
+    by_cases hi : i < s.dataSize
+    · simp only [hi, ↓reduceIte]
+      by_cases h1 : i < offset
+      · have a1 : s.dataAddr + i < min (s.dataAddr + offset) m.cells.length := by omega
+        have a2 : i < min offset (min s.dataSize (m.cells.length - s.dataAddr)) := by omega
+        simp [a1, a2, hi]
+      · by_cases h2 : i < offset + src.length
+        · have a1 : ¬ s.dataAddr + i < min (s.dataAddr + offset) m.cells.length := by omega
+          have a2 : ¬ i < min offset (min s.dataSize (m.cells.length - s.dataAddr)) := by omega
+          have a3 : s.dataAddr + i - min (s.dataAddr + offset) m.cells.length < src.length := by omega
+          have a4 : i - min offset (min s.dataSize (m.cells.length - s.dataAddr)) < src.length := by omega
+          simp only [a1, a2, a3, a4, ↓reduceIte]
+          congr 1; omega
+        · have a1 : ¬ s.dataAddr + i < min (s.dataAddr + offset) m.cells.length := by omega
+          have a2 : ¬ i < min offset (min s.dataSize (m.cells.length - s.dataAddr)) := by omega
+          have a3 : ¬ s.dataAddr + i - min (s.dataAddr + offset) m.cells.length < src.length := by omega
+          have a4 : ¬ i - min offset (min s.dataSize (m.cells.length - s.dataAddr)) < src.length := by omega
+          simp only [a1, a2, a3, a4, ↓reduceIte]
+          have a5 : offset + src.length + (i - min offset (min s.dataSize (m.cells.length - s.dataAddr)) - src.length) < s.dataSize := by omega
+          simp only [a5, ↓reduceIte]
+          congr 1; omega
+    · simp only [hi, ↓reduceIte]
+      have a2 : ¬ i < min offset (min s.dataSize (m.cells.length - s.dataAddr)) := by omega
+      have a4 : ¬ i - min offset (min s.dataSize (m.cells.length - s.dataAddr)) < src.length := by omega
+      have a5 : ¬ offset + src.length + (i - min offset (min s.dataSize (m.cells.length - s.dataAddr)) - src.length) < s.dataSize := by omega
+      simp [a2, a4, a5]
+  -- the checksum that gets written is the right one for that image, on both paths
+  have hsum : ∃ m1', (if offset = 0 ∧ src.length = s.dataSize then
+        persistent_store_checksum s m1 (trunc s (f src (trunc s s.init)))
+      else match persistent_calculate_checksum f s m1 with
+        | (.success, sum, m2) => persistent_store_checksum s m2 sum
+        | (a, _, m2) => (a, m2)) = persistent_store_checksum s m1' (expected f s m1') ∧
+      Clean m1' ∧ Fits s m1' ∧ m1'.cells = m1.cells := by
+    by_cases hfull : offset = 0 ∧ src.length = s.dataSize
+    · simp only [hfull, and_self, ↓reduceIte]
+      refine ⟨m1, ?_, hc1, hf1, rfl⟩
+      have : image s m1 = src := by
+        rw [himg1, hfull.1]
+        simp only [List.take_zero, List.nil_append, Nat.zero_add]
+        rw [List.drop_eq_nil_of_le (by simp [image]; simp only [Fits] at hf; omega)]
+        simp
+      have hds : ¬ s.dataSize = 0 := by omega
+      simp [expected, hds, this]
+    · simp only [hfull, ↓reduceIte]
+      obtain ⟨m1', e1, e2, e3⟩ := checksum_chunking f s hst m1 hc1 hf1
+      rw [e1]
+      refine ⟨m1', ?_, e3, by simp only [Fits, e2]; exact hf1, e2⟩
+      simp only [expected, image, e2]
+  obtain ⟨m1', e0, hc1', hf1', hcells⟩ := hsum
+  obtain ⟨m2, e1, hc2, hf2, himg2, hval⟩ := store_checksum_valid f s hst m1' hc1' hf1'
+  have himg1' : image s m1' = image s m1 := by simp only [image, hcells]
+  refine ⟨m2, e0.trans e1, hc2, hf2, by rw [himg2, himg1', himg1], hval, ?_, ?_⟩
+  · have hr : ¬ (s.dataSize > s.dataSize ∨ 0 > s.dataSize - s.dataSize) := by omega
+    simp only [persistent_fetch, persistent_fetch_part, hr, ↓reduceIte, Nat.add_zero,
+      read_clean m2 hc2 s.dataAddr s.dataSize hf2]
+  · have hr : ¬ (s.dataSize > s.dataSize ∨ 0 > s.dataSize - s.dataSize) := by omega
+    simp only [persistent_fetch, persistent_fetch_part, hr, ↓reduceIte, Nat.add_zero,
+      read_clean m2 hc2 s.dataAddr s.dataSize hf2, image]
+
+/-- all medium accesses of store, validate, fetch and reset – on any medium, whatever faults occur –
+    stay inside the instance's checksum-plus-data region -/
+theorem region (f : List Octet → Nat → Nat) (s : Store) (m : Medium) (src : List Octet) (offset n : Nat) (item : Octet) :
+    let lo := s.sumAddr
+    let hi := s.dataAddr + s.dataSize
+    (∃ l, (persistent_store_part f s m src offset).2.log = m.log ++ l ∧ LogIn lo hi l) ∧
+    (∃ l, (persistent_validate f s m).2.log = m.log ++ l ∧ LogIn lo hi l) ∧
+    (∃ l, (persistent_fetch_part s m offset n).2.2.log = m.log ++ l ∧ LogIn lo hi l) ∧
+    (∃ l, (persistent_reset s m item).2.log = m.log ++ l ∧ LogIn lo hi l) :=
+  ⟨(store_part_op f s m src offset).1, (validate_op f s m).1, (fetch_part_op s m offset n).1, (reset_op s m item).1⟩
+
+private theorem writenLoop_spec (s : Store) (item : Octet) :
+    ∀ (fuel : Nat) (m : Medium) (rest addr : Nat), Clean m → addr + rest ≤ m.cells.length → rest ≤ fuel →
+    ∃ m', writenLoop s item fuel m rest addr = (.success, m') ∧ Clean m' ∧
+      m'.cells = m.cells.take addr ++ (List.replicate rest item ++ m.cells.drop (addr + rest)) := by
+  intro fuel
+  induction fuel with
+  | zero =>
+    intro m rest addr hc hr hf
+    have : rest = 0 := by omega
+    subst this
+    exact ⟨m, by simp [writenLoop], hc, by simp⟩
+  | succ fuel ih =>
+    intro m rest addr hc hr hf
+    cases rest with
+    | zero => exact ⟨m, by simp [writenLoop], hc, by simp⟩
+    | succ r =>
+      have hb : 1 ≤ s.bsize := by
+        simp only [Store.bsize]; split
+        · split <;> omega
+        · omega
+      simp only [writenLoop]
+      generalize htg : (if r + 1 > s.bsize then s.bsize else r + 1) = toput
+      have ht1 : 1 ≤ toput ∧ toput ≤ r + 1 := by rw [← htg]; split <;> omega
+      rw [write_clean m hc addr (List.replicate toput item) (by simp; omega)]
+      simp only [List.length_replicate, ne_eq, not_true_eq_false, ↓reduceIte]
+      obtain ⟨m1, hm1⟩ : ∃ m1 : Medium, m1 = { m with cells := m.cells.take addr ++ (List.replicate toput item ++ m.cells.drop (addr + toput)), log := m.log ++ [(true, addr, toput)] } := ⟨_, rfl⟩
+      rw [← hm1]
+      have hc1 : Clean m1 := by rw [hm1]; exact hc
+      have hlen : m1.cells.length = m.cells.length := by
+        rw [hm1]; simp; omega
+      obtain ⟨m', e1, e2, e3⟩ := ih m1 (r + 1 - toput) (addr + toput) hc1 (by omega) (by omega)
+      refine ⟨m', e1, e2, ?_⟩
+      rw [e3, hm1]
+      have := put_put m.cells (List.replicate toput item) (List.replicate (r + 1 - toput) item) addr (by simp; omega)
+      simp only [List.length_replicate, List.length_append] at this
+      have hsum : toput + (r + 1 - toput) = r + 1 := by omega
+      rw [this, List.replicate_append_replicate, hsum]
+
+/-- reset sets every octet of the region (checksum field and data) to the fill value and nothing else -/
+theorem reset_spec (s : Store) (m : Medium) (hc : Clean m) (hf : Fits s m) (item : Octet) :
+    ∃ m', persistent_reset s m item = (.success, m') ∧
+      m'.cells = m.cells.take s.sumAddr ++ (List.replicate (s.width + s.dataSize) item ++ m.cells.drop (s.dataAddr + s.dataSize)) := by
+  have hr : s.sumAddr + s.width ≤ m.cells.length := by simp only [Fits, Store.dataAddr] at hf; omega
+  obtain ⟨m1, e1, c1, g1⟩ := writenLoop_spec s item s.width m s.width s.sumAddr hc hr (Nat.le_refl _)
+  have hl1 : m1.cells.length = m.cells.length := by rw [g1]; simp; omega
+  obtain ⟨m2, e2, c2, g2⟩ := writenLoop_spec s item s.dataSize m1 s.dataSize s.dataAddr c1 (by rw [hl1]; exact hf) (Nat.le_refl _)
+  refine ⟨m2, by simp [persistent_reset, e1, e2], ?_⟩
+  rw [g2, g1]
+  have := put_put m.cells (List.replicate s.width item) (List.replicate s.dataSize item) s.sumAddr
+    (by simp; simp only [Fits, Store.dataAddr] at hf; omega)
+  simp only [List.length_replicate, List.length_append, List.replicate_append_replicate] at this
+  simp only [Store.dataAddr]
+  rw [this]
+  congr 3
+  omega
+
+/-! #### the checksum functions in use are streamable -/
+
+theorem sum16_streamable (s : Store) (hw : s.width = 2) : Streamable sum16 s := by
+  intro a b i
+  have hmod : ∀ (l : List Octet) (x : Nat), (l.foldl (fun a o => (a + o.toNat) % 65536) (x % 65536)) % 65536
+      = (l.foldl (fun a o => (a + o.toNat) % 65536) x) % 65536 := by
+    intro l; induction l with
+    | nil => intro x; simp
+    | cons o os ih => intro x; simp only [List.foldl_cons]; congr 2; omega
+  simp only [trunc, hw, sum16, List.foldl_append]
+  exact (hmod b _).symm
+
+theorem sum32_streamable (s : Store) (hw : s.width = 4) : Streamable sum32 s := by
+  intro a b i
+  have hmod : ∀ (l : List Octet) (x : Nat), (l.foldl (fun a o => (a * 31 + o.toNat) % 4294967296) (x % 4294967296)) % 4294967296
+      = (l.foldl (fun a o => (a * 31 + o.toNat) % 4294967296) x) % 4294967296 := by
+    intro l; induction l with
+    | nil => intro x; simp
+    | cons o os ih =>
+      intro x; simp only [List.foldl_cons]; congr 2
+      rw [Nat.add_mod, Nat.mul_mod, Nat.mod_mod, ← Nat.mul_mod, ← Nat.add_mod]
+  simp only [trunc, hw, sum32, List.foldl_append]
+  exact (hmod b _).symm
+
+/-- CRC-16/ARC (the library's own function, see C16) used as 16-bit checksum -/
+theorem crc16_streamable (s : Store) (hw : s.width = 2) :
+    Streamable (fun d i => (Ufw.Model.Crc.ufw_crc16_arc (BitVec.ofNat 16 i) d).toNat) s := by
+  intro a b i
+  simp only [trunc, hw, Ufw.Model.Crc.ufw_crc16_arc, List.foldl_append]
+  congr 3
+  apply BitVec.eq_of_toNat_eq
+  simp only [BitVec.toNat_ofNat]
+  have := (List.foldl Gen.CrcTable.crc16_octet (BitVec.ofNat 16 i) a).isLt
+  omega
+
+/-! #### non-vacuity -/
+
+example : Streamable sum16 { sumAddr := 3, width := 2, init := 0, dataSize := 4, buf := some 3 } :=
+  sum16_streamable _ rfl
+example : Clean { cells := List.replicate 12 0#8 } ∧
+    Fits { sumAddr := 3, width := 2, init := 0, dataSize := 4, buf := some 3 } { cells := List.replicate 12 0#8 } := by
+  simp [Clean, Fits, Store.dataAddr]
+
 end Ufw.Props.C10
